@@ -73,6 +73,11 @@ def cases(ctx):
                 yield {"kind": "request", "type": tp, "number": rng.choice([1, 2, 3]), "rotations_local": list(rng.choice(triples)),
                        "rotations_remote": list(rng.choice(triples)) if tp == "M" else None, "max_time": rng.choice([0, 5]),
                        "time_unit": rng.choice(["MICRO_SECONDS", "SECONDS"]), "socket": rng.choice([0, 2]), "remote": "bob"}
+    for number in (1, 2):
+        for extra in ({}, {"max_time": 5, "time_unit": "SECONDS"}, {"max_time": 7, "time_unit": "MILLI_SECONDS"}, {"max_time": 1}):
+            for fid in (50, 80, 95):
+                if mine():
+                    yield dict({"kind": "request", "type": "K", "number": number, "socket": 0, "remote": "bob", "fidelity": fid}, **extra)
     for tp in ("K", "M", "R"):
         for extra in ({}, {"rotations_local": [1, 2, 3]}, {"basis_local": "X"}, {"random_basis_local": "XZ"}, {"max_time": 5, "time_unit": "SECONDS"},
                       {"rotations_local": [8, 0, 31], "rotations_remote": [1, 1, 1]}):
@@ -391,6 +396,11 @@ def _request(ctx, case):
         kw["rotations_local"] = tuple(case["rotations_local"])
     if case.get("rotations_remote"):
         kw["rotations_remote"] = tuple(case["rotations_remote"])
+    if case.get("fidelity"):
+        # a fidelity constraint on top (the request is wrapped in a retry loop; the link is fast, one attempt suffices): every
+        # other parameter reaches the stack as without it
+        kw["min_fidelity_all_at_end"] = case["fidelity"]
+        kw["max_tries"] = 3
     nontrivial = number >= 2 or len(kw) > 0
     try:
         with pipe.conn as conn:
